@@ -19,7 +19,7 @@ ORACLE = ('harness-computed from fetch_table(_grist_Tables/_grist_Tables_column)
           'column record belongs to an existing table record (not via assert_schema_consistent)')
 ASSUMPTIONS = ['metadata rows are only added through user actions (AddTable/AddColumn...), updates/removals also through records',
                'faults are raised at doc-action boundaries and at rebuild_usercode entry (DESIGN.md C04 fault model)']
-BUDGET = {'quick': dict(examples=640, shards=16, max_seconds=55),
+BUDGET = {'quick': dict(examples=1300, shards=16, max_seconds=75),
           'thorough': dict(examples=20000, shards=16, max_seconds=1800)}
 SHRINK_BUDGET = {'quick': 60, 'thorough': 400}
 
